@@ -122,11 +122,17 @@ func VH_C04_MITM() {
 
 // VH_C04_MITM_KK: the same for the key-based pattern.
 func VH_C04_MITM_KK() {
-	cfg := &vHSConfig{kk: true, cMin: 2, cMax: 2, sMin: 2, sMax: 2}
+	// all version ranges: the deployed default is [0,2] on both sides; the key
+	// based pattern needs version 2, whatever the configured minimum says
+	cfg := &vHSConfig{kk: true}
+	vVersions(cfg)
 	auth := vBytes("auth", 7)
 	cfg.auth = auth
 	hs, ok := vSetup(cfg)
-	vAssert(ok, "machine construction failed")
+	if !ok {
+		vAssert(cfg.cMax < 2 || cfg.sMax < 2, "KK machine construction failed although version 2 is allowed")
+		return
+	}
 	vMITM(hs, true)
 	vRunHandshake(hs)
 	vReach("mitm-kk")
